@@ -118,6 +118,10 @@ impl Acc {
                 *self.cases_with.entry(k.to_string()).or_default() += 1;
             }
         }
+        self.evaluations += st.sub_evaluations;
+        for k in &st.sub_nontrivial {
+            self.nontrivial_hashes.insert(mix64(hash, *k));
+        }
         if st.nontrivial {
             let new = self.nontrivial_hashes.insert(hash);
             if new && self.samples.len() < 4 {
@@ -291,7 +295,8 @@ where
                                 Ok(())
                             }
                             Err(Fail::Infra(msg)) => {
-                                *infra_msg.lock().unwrap() = Some(format!("{msg}\ncase: {}", serde_json::to_string(&v).unwrap_or_default()));
+                                let case: String = serde_json::to_string(&v).unwrap_or_default().chars().take(1500).collect();
+                                *infra_msg.lock().unwrap() = Some(format!("{msg}\ncase: {case}"));
                                 stop.store(true, Ordering::Relaxed);
                                 Ok(())
                             }
